@@ -1,3 +1,5 @@
+mod fmtcommon;
+mod progen;
 mod props;
 mod run;
 mod tv;
